@@ -95,92 +95,43 @@ func checkC08(c *Ctx, r *Report) {
 
 	// ---- C08-bounded
 	r.Rule("C08-bounded", 2, "a pos < size edge is taken between any two increments of the position")
-	adv := callsTo(read, false, "lzhuf.Reader.advanceState")
-	if len(adv) == 0 {
-		r.Fail("C08-bounded", "Read no longer advances the position through advanceState (anchor unresolved)")
-	}
-	isAdv := func(in ssa.Instruction) bool {
-		call, ok := in.(*ssa.Call)
-		return ok && callName(&call.Call) == "lzhuf.Reader.advanceState"
-	}
-	edgeEstablishes := func(from, to *ssa.BasicBlock) bool {
-		ifi, ok := from.Instrs[len(from.Instrs)-1].(*ssa.If)
-		if !ok || from.Succs[0] == from.Succs[1] {
-			return false
+	// The increments are found by what they do (a store to <reader>.state.pos), in Read or in the
+	// same-package helpers it reaches; helpers are summarised (ip_g7.go, g7Bounded).
+	bd := &g7Bounded{c: c, cmp: cmpPosSize, sums: map[*ssa.Function]*g7BSum{}, busy: map[*ssa.Function]bool{}}
+	nEv := 0
+	eachInstr(read, func(b *ssa.BasicBlock, i int, in ssa.Instruction) {
+		kind, hs := bd.event(in, read)
+		if kind == 0 {
+			return
 		}
-		b, ok := ifi.Cond.(*ssa.BinOp)
-		if !ok {
-			return false
+		nEv++
+		what := c.exprAt(read, in.Pos())
+		if what == "" {
+			what = "store to the decoded position"
 		}
-		op, ok := cmpPosSize(b)
-		if !ok {
-			return false
-		}
-		if from.Succs[1] == to {
-			op = negOp(op)
-		}
-		return op == token.LSS
-	}
-	for _, a := range adv {
-		o := r.Add("C08-bounded", where, "after "+c.exprAt(read, a.Pos()), c.pos(a.Pos()))
-		bad := ""
-		type st struct {
-			b   *ssa.BasicBlock
-			idx int
-		}
-		seen := map[*ssa.BasicBlock]bool{}
-		var walk func(b *ssa.BasicBlock, idx int)
-		walk = func(b *ssa.BasicBlock, idx int) {
-			if bad != "" {
-				return
-			}
-			for i := idx; i < len(b.Instrs); i++ {
-				if isAdv(b.Instrs[i]) {
-					bad = c.pos(b.Instrs[i].Pos())
-					return
-				}
-			}
-			for _, s := range b.Succs {
-				if edgeEstablishes(b, s) || seen[s] {
-					continue
-				}
-				seen[s] = true
-				walk(s, 0)
+		o := r.Add("C08-bounded", where, "after "+what, c.pos(in.Pos()))
+		switch {
+		case kind == 3:
+			o.Bad("a helper that advances the position is deferred or spawned here: the order of increments and size tests cannot be followed")
+		case kind == 2 && hs.internal != "":
+			o.Bad("%s: more bytes than declared can be produced", hs.internal)
+		case kind == 2 && !hs.exitBad:
+			o.OK("every path on which the helper advances the position takes an edge on which pos < size holds before it returns")
+		default:
+			if bad, _ := bd.walk(read, b, i+1); bad == "" {
+				o.OK("every path to the next increment takes an edge on which pos < size holds")
+			} else {
+				o.Bad("the increment at %s can follow this one without a pos < size test in between: more bytes than declared can be produced", bad)
 			}
 		}
-		walk(a.Block(), instrIndex(a)+1)
-		if bad == "" {
-			o.OK("every path to the next increment takes an edge on which pos < size holds")
-		} else {
-			o.Bad("the increment at %s can follow this one without a pos < size test in between: more bytes than declared can be produced", bad)
-		}
+	})
+	if nEv == 0 {
+		r.Fail("C08-bounded", "Read no longer advances the decoded position, neither itself nor through a helper (anchor unresolved)")
 	}
 	// the first increment as well: from entry
 	{
 		o := r.Add("C08-bounded", where, "first increment", c.pos(read.Pos()))
-		bad := ""
-		seen := map[*ssa.BasicBlock]bool{}
-		var walk func(b *ssa.BasicBlock)
-		walk = func(b *ssa.BasicBlock) {
-			if bad != "" {
-				return
-			}
-			for _, in := range b.Instrs {
-				if isAdv(in) {
-					bad = c.pos(in.Pos())
-					return
-				}
-			}
-			for _, s := range b.Succs {
-				if edgeEstablishes(b, s) || seen[s] {
-					continue
-				}
-				seen[s] = true
-				walk(s)
-			}
-		}
-		walk(read.Blocks[0])
-		if bad == "" {
+		if bad, _ := bd.walk(read, read.Blocks[0], 0); bad == "" {
 			o.OK("no increment is reachable from the entry of Read without a pos < size edge")
 		} else {
 			o.Bad("the increment at %s is reachable from the entry of Read without a pos < size test", bad)
